@@ -644,17 +644,123 @@ def run_text(ck):
     return cases, parsed, usable, mism, viol, sem, stats, byid
 
 
+
+# ------------------------------------------------------------------ the Go loop of ComplexRequestProcessor (theorem 8 / 8b)
+LOOP_HEADER = ("From Coq Require Import List ZArith NArith Bool.\n"
+               "From Qryn Require Import model.TraceqlPortions.\n"
+               "Import ListNotations.\n")
+LOOP_CODES = {1: "the portion filter (Max, I) of a statement differs from the model's", 2: "the cached ids of a statement are not the winners so far",
+              3: "the lower window bound of a statement differs from next_from of the model", 5: "the answer of Process is not the last statement's answer",
+              6: "the answer of Process is not a top-`limit` selection of the matching traces of the window"}
+
+
+def loop_case_to_coq(c):
+    alls = [t for t in c["all"] if t["key"] < c["to"]]
+    tr = coq_list(["{| tid := %d%%N; tkey := (%d)%%Z |}" % (t["n"], t["key"]) for t in alls])
+    parts = coq_list(["(%d%%N, %d%%N)" % (t["n"], t["part"]) for t in alls])
+    steps = coq_list(["{| st_max := %d%%N; st_i := %d%%N; st_cached := %s; st_from := (%d)%%Z; st_rows := %s |}" % (
+        st["max"], st["i"], coq_list(["%d%%N" % x for x in st["cached"]]), st["from"], coq_list(["%d%%N" % x for x in st["rows"]])) for st in c["steps"]])
+    return "{| lc_id := (%d)%%Z; lc_k := %d%%nat; lc_portions := %d%%N; lc_from0 := (%d)%%Z; lc_all := %s; lc_parts := %s; lc_steps := %s; lc_final := %s |}" % (
+        c["id"], c["limit"], c["portions"], c["from0"], tr, parts, steps, coq_list(["%d%%N" % x for x in c["final"]]))
+
+
+def run_loop(ck):
+    """drives the real ComplexRequestProcessor.Process over a scripted database/sql back-end (harness/cmd/tqloop) and replays every
+    recorded run against model/TraceqlPortions.v inside Coq (loop_code; theorem portions_run_is_reach)"""
+    if not ck.go_build("tqloop"):
+        ck.obligation("harness tqloop builds against the repository", False, ck.build_out[-1500:])
+        return
+    cases = []
+    corpus = os.path.join(ROOT, "corpus", "C11", "loop.jsonl")
+    if os.path.exists(corpus):
+        outp = os.path.join(ck.work, "loop_corpus.jsonl")
+        rc, out = ck.go_run("tqloop", ["--cases", corpus, "--out", outp])
+        if rc != 0:
+            ck.obligation("harness tqloop ran the corpus", False, out[-1500:])
+            return
+        for i, c in enumerate(load(outp)):
+            c["id"] = 2000000 + i
+            cases.append(c)
+    n = ck.n(400, 6000)
+    outp = os.path.join(ck.work, "loop_gen.jsonl")
+    rc, out = ck.go_run("tqloop", ["--seed", ck.seed, "--n", n, "--out", outp])
+    if rc != 0:
+        ck.obligation("harness tqloop ran", False, out[-1500:])
+        return
+    cases += load(outp)
+    byid = {c["id"]: c for c in cases}
+    # what the harness itself can see of a statement
+    errs = [c["id"] for c in cases if c.get("err")]
+    ck.obligation("loop tie: ComplexRequestProcessor.Process answered %d portioned searches without error" % len(cases), not errs,
+                  "ids %s e.g. %r" % (errs[:5], byid[errs[0]]["err"] if errs else ""))
+    shape = [c["id"] for c in cases if not c.get("err") and (c.get("unknown_cached") or any(
+        (not st["from_consistent"]) or st["to"] != c["to"] or st["sqllimit"] != c["limit"] for st in c["steps"]))]
+    ck.obligation("loop tie: every statement of the loop carries one lower bound in all its window conditions, the request's upper bound, "
+                  "the request's LIMIT and only ids of returned traces as cached ids", not shape, "ids %s" % shape[:5])
+    if shape:
+        w = byid[shape[0]]
+        ck.violation({"property": "C11", "kind": "a statement of the portion loop has an inconsistent window / limit / cached id list",
+                      "replay": "harness tqloop --cases <file with case>", "case": {k: w[k] for k in ("limit", "portions", "from0", "to", "all", "tiebreak")},
+                      "steps": w["steps"]})
+    good = [c for c in cases if not c.get("err")]
+    bad = []
+    for k in range(0, len(good), 1500):
+        sub = good[k:k + 1500]
+        txt = (LOOP_HEADER + "\n".join("Definition l%d : loop_case := %s." % (c["id"], loop_case_to_coq(c)) for c in sub)
+               + "\nDefinition cases : list loop_case := " + coq_list(["l%d" % c["id"] for c in sub]) + ".\n"
+               "Definition LC := Eval vm_compute in loop_codes cases.\nPrint LC.\n")
+        rc, out = ck.coq_eval("C11_loop_%d" % (k // 1500), txt)
+        flat = " ".join(out.split())
+        m = re.search(r"LC = (\[.*\]|nil)\s*: list", flat)
+        if rc != 0 or not m:
+            ck.obligation("recorded runs of the portion loop evaluated inside Coq", False, out[-1500:])
+            return
+        bad += [tuple(int(x) for x in t) for t in re.findall(r"\((-?\d+)(?:%Z)?, \((-?\d+)(?:%Z)?, (\d+)(?:%N)?, (-?\d+)(?:%Z)?, (-?\d+)(?:%Z)?\)\)", m.group(1))]
+    harness_bad = [b for b in bad if b[1] in (4, 7)]
+    ck.obligation("loop tie: the scripted back-end answered every statement with a top-`limit` selection of its visible rows, newest first "
+                  "(the hypothesis of `reach`), cases inside the theorem's hypotheses", not harness_bad, str(harness_bad[:5]))
+    real = [b for b in bad if b[1] not in (4, 7)]
+    ck.obligation("loop tie: on %d recorded runs (%d statements) of the real ComplexRequestProcessor every statement carries the portion, cached ids "
+                  "and lower bound of the model (next_from), the run is a path of `reach` and the answer a top-`limit` selection of the window" % (
+                      len(good), sum(len(c["steps"]) for c in good)), not real, str(real[:5]))
+    if real:
+        cid, code, st, exp, got = min(real, key=lambda b: (len(byid[b[0]]["all"]), byid[b[0]]["portions"], b[0]))
+        w = byid[cid]
+        ck.violation({"property": "C11", "kind": "portion loop of ComplexRequestProcessor: " + LOOP_CODES.get(code, "code %d" % code),
+                      "query": '{.a = "b"}', "limit": w["limit"], "complexity": "%d x COMPLEXITY_THRESHOLD (%d portions)" % (w["portions"], w["portions"]),
+                      "window": [w["from0"], w["to"]], "database": w["all"], "differing_portion": st,
+                      "model_lower_bound" if code == 3 else "expected": exp, "sent_lower_bound" if code == 3 else "got": got,
+                      "steps": w["steps"], "final": w["final"],
+                      "explanation": "model/TraceqlPortions.v loop_code: the recorded statements of the real loop replayed against reach/next_from",
+                      "replay": "harness tqloop --cases <file with case>", "case": {k: w[k] for k in ("limit", "portions", "from0", "to", "all", "tiebreak")}})
+    raised = sum(1 for c in good if any(st["from"] != c["from0"] for st in c["steps"]))
+    ties = 0
+    for c in good:
+        keys = sorted((t["key"] for t in c["all"] if c["from0"] <= t["key"] < c["to"]), reverse=True)
+        if len(keys) > c["limit"] and keys[c["limit"] - 1] == keys[c["limit"]]:
+            ties += 1
+    ck.extra["loop_tie"] = {"runs": len(good), "statements": sum(len(c["steps"]) for c in good), "runs_with_raised_lower_bound": raised,
+                            "runs_with_a_tie_at_the_cut": ties, "runs_with_whole_second_keys": sum(1 for c in good if any(t["key"] % 10**9 == 0 for t in c["all"])),
+                            "portions": {str(p): sum(1 for c in good if c["portions"] == p) for p in sorted(set(c["portions"] for c in good))},
+                            "limits": {str(p): sum(1 for c in good if c["limit"] == p) for p in sorted(set(c["limit"] for c in good))}}
+    ck.coverage["evaluations"] += len(good)
+    ck.coverage["distinct_nontrivial"] += len(set(json.dumps([c["limit"], c["portions"], [(t["key"] - c["from0"], t["part"]) for t in c["all"]]]) for c in good if len(c["steps"]) >= 2 and c["all"]))
+    ck.coverage["rule"] += ("portion loop: generated (limit, portions, window, <= 12 matching traces with colliding keys and hash classes); non-trivial = at least two portions and one trace; "
+                            "distinct by limit, portions and the (key offset, class) list. ")
+
 def run(ck):
     ck.trusted += [
+        "C11: the loop tie (harness/cmd/tqloop) answers the statements of ComplexRequestProcessor from a scripted back-end that reads the portion filter, cached ids, window bounds and LIMIT off the SQL text (one span and one time per trace); the selection semantics of those statements is the subject of the other obligations",
         "C11: the participle parser is not modelled: the model starts from the tree the real parser built (dumped by the harness)",
         "C11: TraceqlSem.v's evaluator is a model of the ClickHouse subset the planners emit (no ClickHouse binary here): WHERE/GROUP BY/HAVING/ORDER BY/LIMIT, any/max/groupArray/groupBitOr/anyIf/avgIf.., bitShiftLeft/bitAnd, toFloat64OrNull, match, INTERSECT/UNION ALL, ARRAY JOIN; Float64 as exact rationals",
         "C11: strconv.ParseFloat+FloatVal.String (FormatFloat 'f' -1), time.ParseDuration and json unquoting are modelled on a stated domain (<=15 significant digits; plain ASCII) and taken from the Go library (called by the harness) outside it",
     ]
     ck.coq_props()
-    okm, out = ck.coq_make(["model/TraceqlCase.vo", "proofs/TraceqlScope.vo"])
+    okm, out = ck.coq_make(["model/TraceqlCase.vo", "model/TraceqlPortions.vo", "proofs/TraceqlScope.vo"])
     if not okm:
         ck.obligation("model/TraceqlCase.v and proofs/TraceqlScope.v compile", False, out[-1500:])
         return
+    run_loop(ck)
     r = run_text(ck)
     if r is None:
         return
